@@ -103,9 +103,13 @@ def _run(ctx, role, behaviour, case, chain_sel, wkey_sel, sigkind, control):
     pad = [case["pad"], 0, case["pad"] // 3]
     eseed = int.from_bytes(hashlib.sha256(("p13-lib-%d-%s" % (case["seed"], behaviour)).encode()).digest()[:8], "big")
     data = None
+    stray = None
     if control:
         drng = Q.Drbg(case["seed"], "data")
         data = (drng.bytes(1 + drng.below(300)), drng.bytes(1 + drng.below(300)), case["pad"])
+        if case.get("stray"):
+            rt, pl = STRAYS[drng.below(len(STRAYS))]
+            stray = (rt, pl, drng.bytes(1 + drng.below(200)))
     if role == "client":
         cr = case["cr"]
         plan = Q.build_plan("server", behaviour, creds, brng, sigkind=sigkind, request_client_cert=cr > 0)
@@ -113,11 +117,22 @@ def _run(ctx, role, behaviour, case, chain_sel, wkey_sel, sigkind, control):
         if cr == 2:     # the library client owns a certificate and is asked for it
             kw.update(chainfile=own_files["chain"], keyfile=own_files["leafkey"])
         mk = lambda s: Q.ScriptedServer(s, seed, plan, timeout=timeout, padding=pad, client_pub_for_cv=own.keys["leaf"][1] if control else None)
-        return Q.duel(ctx.variant, True, mk, kw, hs_timeout=timeout, data=data)
+        r = Q.duel(ctx.variant, True, mk, kw, hs_timeout=timeout, data=data, stray=stray)
+        r["stray_spec"] = stray
+        return r
     plan = Q.build_plan("client", behaviour, creds, brng, sigkind=sigkind)
     kw = dict(cafile=cafile, chainfile=own_files["chain"], keyfile=own_files["leafkey"], entropy_seed=eseed)
     mk = lambda s: Q.ScriptedClient(s, seed, plan, timeout=timeout, padding=pad, server_pub_for_cv=own.keys["leaf"][1] if control else None)
-    return Q.duel(ctx.variant, False, mk, kw, hs_timeout=timeout, data=data)
+    r = Q.duel(ctx.variant, False, mk, kw, hs_timeout=timeout, data=data, stray=stray)
+    r["stray_spec"] = stray
+    return r
+
+
+# protected records whose inner content type is not application data, sent after the data exchange: post-handshake handshake messages
+# (NewSessionTicket, KeyUpdate), warning / fatal alerts, an inner ChangeCipherSpec, a heartbeat-type record.  The library may refuse them
+# (it implements no post-handshake messages); it must never hand their bytes to the reader as application data.
+STRAYS = [(22, bytes.fromhex("04000015" "00001c20" "01020304" "00" "0008" + "aa" * 8 + "0000")), (22, bytes.fromhex("1800000100")), (21, b"\x01\x5a"),
+          (21, b"\x01\x00"), (21, b"\x02\x28"), (20, b"\x01"), (24, b"\x01\x00\x02hi" + bytes(16))]
 
 
 def _brief(r):
@@ -160,6 +175,15 @@ def _control(ctx, role, case, chain_sel, judge=False, key=None):
           and ctl["data"] is not None and ctl["data"]["l2p"] and ctl["data"]["p2l"])
     ctx.case(nontrivial=ok, classes=["lib-" + role, "lib-" + role + "/honest", "chain-" + chain_sel],
              ident=["honest", role, chain_sel, case["seed"], case["inst"], case["depth"], case["pad"], case["cr"]], sample=dict(case, beh="honest"))
+    sp, reads = ctl.get("stray_spec"), (ctl["data"] or {}).get("stray")
+    if ok and sp is not None and reads is not None and not any(r[0] == "timeout" for r in reads):
+        delivered = b"".join(r[2] for r in reads if r[0] == "recv" and r[1] == 1)
+        ctx.case(nontrivial=True, classes=["stray-record-type-%d" % sp[0], "stray:" + ("refused" if not delivered else "skipped")],
+                 ident=["stray", role, chain_sel, case["seed"], case["inst"], case["depth"], case["pad"], case["cr"]])
+        ctx.check(sp[2].startswith(delivered), "TLS 1.3 library %s: after a protected record of inner content type %d (%s) the reader was handed %d bytes %s.. "
+                  "that are not the application data the peer wrote next (reads: %s)" % (role, sp[0], sp[1].hex(), len(delivered), delivered[:24].hex(),
+                                                                                       [(r[0], r[1], len(r[2])) for r in reads]),
+                  "interop13/non-application-record-delivered/type%d" % sp[0])
     if not ok:
         ctx.note("control-failed")
         ctx.note("control-failed/" + role)
@@ -180,7 +204,7 @@ def register_interop(P, quick=700, thorough=16000):
     def interop13(case, ctx):
         """library endpoint against the independent pure-Python TLS 1.3 implementation (honest): handshake completes, Finished / CertificateVerify verify, data both ways"""
         shim().freeze_time(pki.T0)
-        _control(ctx, case["role"], case, case["chain"], judge=True, key="interop13/%s" % case["role"])
+        _control(ctx, case["role"], dict(case, stray=True), case["chain"], judge=True, key="interop13/%s" % case["role"])
     return interop13
 
 
